@@ -63,9 +63,20 @@ class Run:
     def build_harness(self, race=False):
         """Builds the harness against /repo's current working tree with the verif tag."""
         out = os.path.join(self.work, "vh-race" if race else "vh")
-        shutil.copy(os.path.join(REPO, "go.sum"), os.path.join(HARNESS, "go.sum"))
+        src = HARNESS
+        if REPO != "/repo":
+            # another checkout of gotree (VERIF_REPO): a private copy of the harness sources whose go.mod points to it
+            src = os.path.join(self.work, "harness-src")
+            if not os.path.isdir(src):
+                shutil.copytree(HARNESS, src, ignore=shutil.ignore_patterns("vh", "vh-race", "go.sum"))
+                gm = os.path.join(src, "go.mod")
+                with open(gm) as f:
+                    t = f.read()
+                with open(gm, "w") as f:
+                    f.write(t.replace("=> /repo", "=> " + REPO))
+        shutil.copy(os.path.join(REPO, "go.sum"), os.path.join(src, "go.sum"))
         cmd = ["go", "build", "-tags", "verif"] + (["-race"] if race else []) + ["-o", out, "."]
-        p = subprocess.run(cmd, cwd=HARNESS, env=GOENV, capture_output=True, text=True)
+        p = subprocess.run(cmd, cwd=src, env=GOENV, capture_output=True, text=True)
         if p.returncode != 0:
             raise Infra("harness build failed (does /repo still compile?):\n" + p.stdout + p.stderr)
         if race:
